@@ -63,6 +63,7 @@ CHECKS['C20'] = dict(engine='K', tech='Kani/CBMC bounded model checking of the c
     text='partial claim: for CommitmentOpening, RangeWitness, ExtendedMask drops and for nonce() as a unit, CBMC shows that no heap block released during the harness contains a secret byte, for ALL secret byte values (container shapes enumerated, unwinding assertions on, vacuity twin). The statement seed and the prover / verifier temporaries are covered by a concrete allocator scan on the real crates (ordinary executions, stated as such)',
     note='A6 (dev profile, CBMC memory model), stubs listed in the evidence; NOT claimed by the solver: RangeStatement drop, prove/verify temporaries, stack copies', ref='§5 C20')
 NA = {
+ 'C18': 'not applicable to this family here: the quantifier is over thread interleavings and racing first use of OnceCell statics; Kani/CBMC as shipped does not model Rust threads (rejects std::thread / atomics-based sync), the symbolic-execution engine runs one sequential path, and "deterministic function of its arguments" cannot be asserted over models whose hash/RNG outputs are uninterpreted by construction (DESIGN.md §6)',
 }
 def main():
     checks = []
